@@ -85,6 +85,7 @@ fn cluster_a() -> ClusterSpec {
             CmdSpec { id: C_T, access: Access::WO | Access::TIMED_ONLY, resp: None },
             CmdSpec { id: C_F, access: Access::WO | Access::FAB_SCOPED, resp: None },
         ],
+        events: vec![],
     }
 }
 
@@ -93,6 +94,7 @@ fn cluster_b() -> ClusterSpec {
         id: CL_B,
         attrs: vec![AttrSpec { id: A_RV, access: Access::RV, quality: Quality::NONE, value: Val::U32(0xB111) }, AttrSpec { id: W_VM, access: Access::RWVM, quality: Quality::NONE, value: Val::U32(0xB444) }],
         cmds: vec![CmdSpec { id: C_O, access: Access::WO, resp: None }],
+        events: vec![],
     }
 }
 
@@ -105,7 +107,7 @@ fn node_specs() -> Vec<(&'static str, NodeSpec)> {
         ],
     };
     let sparse = NodeSpec {
-        endpoints: vec![EndpointSpec { id: 0, device_type: 0x16, clusters: vec![cluster_b()] }, EndpointSpec { id: 2, device_type: 0x101, clusters: vec![cluster_b(), cluster_a(), ClusterSpec { id: CL_Z, attrs: vec![], cmds: vec![] }] }],
+        endpoints: vec![EndpointSpec { id: 0, device_type: 0x16, clusters: vec![cluster_b()] }, EndpointSpec { id: 2, device_type: 0x101, clusters: vec![cluster_b(), cluster_a(), ClusterSpec { id: CL_Z, attrs: vec![], cmds: vec![], events: vec![] }] }],
     };
     vec![("full", full), ("sparse", sparse)]
 }
@@ -797,6 +799,14 @@ pub fn run_check(ctx: &Ctx) -> i32 {
     if let Some(p) = &ctx.replay {
         let doc: Value = serde_json::from_str(&std::fs::read_to_string(p).expect("replay file")).expect("json");
         std::env::set_var("MC_SHOW_PANICS", "1");
+        if doc["replay"]["events_world"] == true {
+            let mut report = Report::new();
+            if let Err(e) = super::evw::replay_part(&doc["replay"], "C06", super::evw::is_c06, &mut report) {
+                eprintln!("MACHINERY: {}", e);
+                return 2;
+            }
+            return common::finish(ctx, report, Evidence::new("exploration"));
+        }
         let Some(spec) = parse_spec(&doc["replay"], &specs) else {
             eprintln!("MACHINERY: the replay file does not name a combination of the catalog");
             return 2;
@@ -843,14 +853,22 @@ pub fn run_check(ctx: &Ctx) -> i32 {
             }
         }
     }
+    let events_part = match super::evw::run_part(ctx.tier, "C06", super::evw::is_c06, &mut report) {
+        Ok(v) => v,
+        Err(e) => {
+            eprintln!("MACHINERY: {}", e);
+            return 2;
+        }
+    };
     let mut ev = Evidence::new("exploration");
-    ev.set("evaluations", json!(runs))
+    ev.set("events", events_part.clone());
+    ev.set("evaluations", json!(runs + events_part["scenarios"].as_u64().unwrap_or(0)))
         .set("distinct_nontrivial", json!(outcomes.len() as u64 + 2))
         .set("rule", json!("for 2 node compositions x the access-control catalog (privilege level none/view/operate/manage/admin x target shape all / endpoint / cluster / endpoint+cluster / two targets) x 3 requesters (CASE subject of the entry, PASE, CASE of another fabric) x the operation catalog (reads of every path over endpoint {*,0,1,2,absent} x cluster {*,A,B,absent} x attribute {*, 5 access classes, global, absent} fabric-filtered or not, and lists of two paths in both orders; writes and invocations of every concrete and endpoint-wildcard path x {untimed, timed, window expired, flag without window, window without flag}; multi-element requests): the data returned, the handler calls and the statuses must equal the reference derived from the node composition, the ACL and the access declarations"))
         .set("samples", json!([spec_json(&specs[0]), spec_json(&specs[specs.len() / 2])]))
         .set("vacuity", json!({"runs": runs, "data_items_returned": data_items, "writes_and_invocations_observed": effects, "statuses_returned": statuses}))
         .set("exhaustive_within_bound", json!(true));
-    ev.assume("events are not part of this check (C13/C14 cover event reads); the access check function itself over the full ACL space is C05's subject");
+    ev.assume("the access check function itself over the full ACL space is C05's subject; event reads and event reports of subscriptions are judged in the events world (see 'events')");
     ev.assume("a concrete path to an absent element may be answered with 'unsupported access' instead of the specific 'unsupported ...' status when the requester has no privilege on the target");
     if runs == 0 || data_items == 0 || effects == 0 || statuses == 0 {
         eprintln!("MACHINERY: vacuous C06 run ({} runs, {} data, {} effects, {} statuses)", runs, data_items, effects, statuses);
